@@ -12,7 +12,20 @@ from spec import lis_lr_ref as L
 from TotalDepth.LIS.core import File, FileIndexer, LogiRec, Mnem, EngVal
 from TotalDepth.util.plot import FILMCfg, Plot, PlotConstants
 
-TRACKS = [b'T1  ', b'T2  ', b'T3  ', b'T23 ']
+TRACKS = [b'T1  ', b'T2  ', b'T3  ', b'T23 ', b'LHT1', b'RHT1', b'LHT2', b'RHT2', b'LHT3', b'RHT3', b'T12 ']
+# The three-track film (FILM GCOD 'E20 ' = linear T1, depth track, T2 and T3 as one 4-decade log grid) in inches from the left plot margin:
+# the API log layout, written here independently of FILMCfg.  LHTn / RHTn are the left / right half of track n, Tnm spans tracks n..m.
+TRACK_EDGES = {1: (0.0, 2.4), 2: (3.2, 5.6), 3: (5.6, 8.0)}
+
+
+def _track_extent(name):
+    n = name.strip()
+    if n.startswith(b'LHT') or n.startswith(b'RHT'):
+        lo, hi = TRACK_EDGES[int(n[3:4])]
+        mid = (lo + hi) / 2
+        return (lo, mid) if n[:1] == b'L' else (mid, hi)
+    digits = [int(chr(c)) for c in n[1:]]
+    return TRACK_EDGES[digits[0]][0], TRACK_EDGES[digits[-1]][1]
 MODES = [b'NB  ', b'WRAP', b'SHIF', b'GRAD']             # no back-up, unlimited wrap, one shift, logarithmic
 CODINGS = [(b'LSPO', '2,2'), (b'LDAS', '4,4'), (b'HGAP', '6,2')]
 # one cycle of the recorded signal (multiplied by the amplitude): crosses zero, both signs
@@ -92,8 +105,8 @@ def _plot(ncurves, t0, t1, m0, m1, amp, same_outp, xin=False):
     vb = [float(v) for v in root.get('viewBox').split()]
     polylines = [e for e in root.iter() if e.tag.endswith('polyline') and e.get('fill') == 'none']
     for k, (outp, trac, mode) in enumerate(curves):
-        left_p, right_p, _hts, _ht = cfg[fid].interpretTrac(TRACKS[trac])
-        x_lo, x_hi = (margin_left + left_p.value) * scale, (margin_left + right_p.value) * scale
+        left_in, right_in = _track_extent(TRACKS[trac])
+        x_lo, x_hi = (margin_left + left_in) * scale, (margin_left + right_in) * scale
         mine = [e for e in polylines if e.get('stroke-dasharray') == CODINGS[k][1]]
         npts = 0
         for e in mine:
@@ -119,12 +132,12 @@ def _plot(ncurves, t0, t1, m0, m1, amp, same_outp, xin=False):
 
 def svg_curves_in_track(ncurves: int, t0: int, t1: int, m0: int, m1: int, amp: int, same_outp: bool, xin: bool = False) -> bool:
     """
-    pre: 1 <= ncurves <= 2 and 0 <= t0 <= 3 and 0 <= t1 <= 3 and 0 <= m0 <= 3 and 0 <= m1 <= 3 and 0 <= amp <= 2
+    pre: 1 <= ncurves <= 2 and 0 <= t0 <= 10 and 0 <= t1 <= 3 and 0 <= m0 <= 3 and 0 <= m1 <= 3 and 0 <= amp <= 2
     pre: ncurves == 2 or (t1 == 0 and m1 == 0 and not same_outp)
     pre: PART < 0 or t0 * 4 + m0 == PART
     post: _
     """
-    ncurves, t0, t1, m0, m1, amp = mark.pick(ncurves, 1, 2), mark.pick(t0, 0, 3), mark.pick(t1, 0, 3), mark.pick(m0, 0, 3), mark.pick(m1, 0, 3), mark.pick(amp, 0, 2)
+    ncurves, t0, t1, m0, m1, amp = mark.pick(ncurves, 1, 2), mark.pick(t0, 0, 10), mark.pick(t1, 0, 3), mark.pick(m0, 0, 3), mark.pick(m1, 0, 3), mark.pick(amp, 0, 2)
     same_outp, xin = mark.pickb(same_outp), mark.pickb(xin)
     with mark.untraced():
         return _plot(ncurves, t0, t1, m0, m1, amp, same_outp, xin)
